@@ -1,4 +1,441 @@
-From Coq Require Import ZArith NArith List Bool Lia.
+(* Lemmas for C07 (statements of the property theorems are in Props/C07.v). *)
+From Coq Require Import ZArith NArith List Bool Lia Sorted.
+From Coq Require Import ZifyBool ZifyNat ZifyN.
 From KV Require Import Common.Verdict Model.C07.
 Import ListNotations.
-Lemma stub : True. Proof. exact I. Qed.
+Open Scope N_scope.
+
+(* ------------------------------------------------------------------ membership *)
+Lemma memN_In x l : memN x l = true <-> In x l.
+Proof.
+  unfold memN. rewrite existsb_exists. split.
+  - intros [y [H1 H2]]. apply N.eqb_eq in H2. subst. exact H1.
+  - intros H. exists x. split; [exact H | apply N.eqb_refl].
+Qed.
+Lemma memN_false x l : memN x l = false <-> ~ In x l.
+Proof.
+  rewrite <- memN_In. destruct (memN x l).
+  - split; [discriminate | intros H; exfalso; apply H; reflexivity].
+  - split; [intros _ H; discriminate | reflexivity].
+Qed.
+Lemma memN_app x a b : memN x (a ++ b) = memN x a || memN x b.
+Proof. unfold memN. apply existsb_app. Qed.
+Lemma memN_cons x a l : memN x (a :: l) = N.eqb x a || memN x l.
+Proof. reflexivity. Qed.
+
+(* ------------------------------------------------------------------ group marking *)
+Lemma mark_dq_members g e : g_members (mark_dq g e) = g_members g.
+Proof. unfold mark_dq. destruct (is_operating g e); reflexivity. Qed.
+Lemma mark_dq_ia g e : g_ia (mark_dq g e) = g_ia g.
+Proof. unfold mark_dq. destruct (is_operating g e); reflexivity. Qed.
+
+Lemma is_operating_mark_dq g e m :
+  is_operating (mark_dq g e) m = is_operating g m && negb (N.eqb m e).
+Proof.
+  unfold mark_dq. destruct (is_operating g e) eqn:He.
+  - unfold is_operating. cbn [g_members g_ia g_dq]. rewrite memN_app, memN_cons.
+    replace (memN m []) with false by reflexivity. rewrite orb_false_r.
+    destruct (memN m (g_members g)), (memN m (g_ia g)), (memN m (g_dq g)), (N.eqb m e);
+      reflexivity.
+  - destruct (N.eqb m e) eqn:E.
+    + apply N.eqb_eq in E. subst. rewrite He. reflexivity.
+    + rewrite andb_true_r. reflexivity.
+Qed.
+
+Lemma fold_mark_dq_members l g : g_members (fold_left mark_dq l g) = g_members g.
+Proof. revert g. induction l as [|e l IH]; intros g; cbn [fold_left]; [reflexivity|]. rewrite IH. apply mark_dq_members. Qed.
+Lemma fold_mark_dq_ia l g : g_ia (fold_left mark_dq l g) = g_ia g.
+Proof. revert g. induction l as [|e l IH]; intros g; cbn [fold_left]; [reflexivity|]. rewrite IH. apply mark_dq_ia. Qed.
+
+Lemma is_operating_fold_mark_dq l g m :
+  is_operating (fold_left mark_dq l g) m = is_operating g m && negb (memN m l).
+Proof.
+  revert g. induction l as [|e l IH]; intros g; cbn [fold_left].
+  - cbn. rewrite andb_true_r. reflexivity.
+  - rewrite IH, is_operating_mark_dq, memN_cons.
+    destruct (is_operating g m), (N.eqb m e), (memN m l); reflexivity.
+Qed.
+
+Lemma dq_fold l : forall g m,
+  In m (g_dq (fold_left mark_dq l g)) <-> In m (g_dq g) \/ (In m l /\ is_operating g m = true).
+Proof.
+  induction l as [|e l IH]; intros g m; cbn [fold_left].
+  - cbn. tauto.
+  - rewrite IH. rewrite is_operating_mark_dq.
+    assert (Hdq : In m (g_dq (mark_dq g e)) <-> In m (g_dq g) \/ (m = e /\ is_operating g e = true)).
+    { unfold mark_dq. destruct (is_operating g e) eqn:He; cbn [g_dq].
+      - rewrite in_app_iff. cbn. intuition.
+      - intuition congruence. }
+    rewrite Hdq. cbn [In].
+    destruct (N.eqb m e) eqn:E.
+    + apply N.eqb_eq in E. subst e. rewrite andb_false_r. intuition congruence.
+    + apply N.eqb_neq in E. rewrite andb_true_r. intuition congruence.
+Qed.
+
+Lemma execute_marking_fold self ex g :
+  execute_marking self ex g = fold_left mark_dq (filter (fun e => negb (N.eqb e self)) ex) g.
+Proof.
+  unfold execute_marking. revert g. induction ex as [|a ex IH]; intros g; cbn [fold_left filter].
+  - reflexivity.
+  - destruct (N.eqb a self); cbn [negb fold_left]; apply IH.
+Qed.
+Lemma filter_not_self self ex :
+  memN self ex = false -> filter (fun e => negb (N.eqb e self)) ex = ex.
+Proof.
+  induction ex as [|a ex IH]; cbn [filter]; intros H; [reflexivity|].
+  rewrite memN_cons in H. apply orb_false_iff in H. destruct H as [H1 H2].
+  rewrite N.eqb_sym, H1. cbn [negb]. rewrite IH by exact H2. reflexivity.
+Qed.
+
+(* a member that is not excluded marks exactly the excluded list: its group does not depend on
+   which member it is *)
+Lemma execute_marking_not_excluded self ex g :
+  memN self ex = false -> execute_marking self ex g = fold_left mark_dq ex g.
+Proof. intros H. rewrite execute_marking_fold, filter_not_self by exact H. reflexivity. Qed.
+
+(* ------------------------------------------------------------------ the initial group *)
+Lemma members_small_gen size : forall s, (s + size <= 255)%nat ->
+  map member_of_pos (seq s size) = map N.of_nat (seq (S s) size).
+Proof.
+  induction size as [|n IH]; intros s H; cbn [seq map]; [reflexivity|].
+  f_equal.
+  - unfold member_of_pos. rewrite N.mod_small by lia. lia.
+  - apply IH. lia.
+Qed.
+Lemma members_small size : (size <= 255)%nat ->
+  g_members (new_group 0 size) = map N.of_nat (seq 1 size).
+Proof. intros H. cbn. apply members_small_gen. lia. Qed.
+Lemma new_group_members t size : g_members (new_group t size) = g_members (new_group 0 size).
+Proof. reflexivity. Qed.
+
+Lemma In_range size m : In m (map N.of_nat (seq 1 size)) <-> 1 <= m <= N.of_nat size.
+Proof.
+  rewrite in_map_iff. split.
+  - intros [x [Hx Hin]]. apply in_seq in Hin. lia.
+  - intros H. exists (N.to_nat m). split; [lia|]. apply in_seq. lia.
+Qed.
+
+Lemma range_sorted n : forall s, StronglySorted N.lt (map N.of_nat (seq s n)).
+Proof.
+  induction n as [|n IH]; intros s; cbn [seq map]; constructor.
+  - apply IH.
+  - apply Forall_forall. intros x Hx. apply in_map_iff in Hx. destruct Hx as [y [Hy Hin]].
+    apply in_seq in Hin. lia.
+Qed.
+
+Lemma SSorted_filter {A} (R : A -> A -> Prop) f l :
+  StronglySorted R l -> StronglySorted R (filter f l).
+Proof.
+  induction 1 as [|a l Hs IH Hf]; cbn [filter]; [constructor|].
+  destruct (f a); [|exact IH]. constructor; [exact IH|].
+  apply Forall_forall. intros x Hx. apply filter_In in Hx. destruct Hx as [Hx _].
+  rewrite Forall_forall in Hf. auto.
+Qed.
+
+Lemma keys_sorted seed l :
+  StronglySorted N.lt l -> StronglySorted Z.lt (map (party_key seed) l).
+Proof.
+  induction 1 as [|a l Hs IH Hf]; cbn [map]; constructor; [exact IH|].
+  apply Forall_forall. intros x Hx. apply in_map_iff in Hx. destruct Hx as [y [Hy Hin]].
+  rewrite Forall_forall in Hf. specialize (Hf y Hin). unfold party_key in *. lia.
+Qed.
+
+Lemma sortZ_id l : StronglySorted Z.lt l -> sortZ l = l.
+Proof.
+  induction 1 as [|a l Hs IH Hf]; [reflexivity|].
+  unfold sortZ in *. cbn [fold_right]. rewrite IH.
+  destruct l as [|b l]; [reflexivity|]. cbn [insertZ].
+  inversion Hf; subst. destruct (Z.leb_spec a b); [reflexivity|lia].
+Qed.
+
+(* ------------------------------------------------------------------ sorting N, nodup *)
+Lemma In_insertN a l x : In x (insertN a l) <-> x = a \/ In x l.
+Proof.
+  induction l as [|y l IH]; cbn [insertN In]; [intuition|].
+  destruct (a <=? y); cbn [In]; [intuition|]. rewrite IH. intuition.
+Qed.
+Lemma In_sortN l x : In x (sortN l) <-> In x l.
+Proof.
+  induction l as [|a l IH]; [reflexivity|]. unfold sortN in *. cbn [fold_right In].
+  rewrite In_insertN, IH. intuition.
+Qed.
+Lemma insertN_sorted a l :
+  StronglySorted N.lt l -> ~ In a l -> StronglySorted N.lt (insertN a l).
+Proof.
+  induction 1 as [|y l Hs IH Hf]; intros Hn; cbn [insertN].
+  - constructor; constructor.
+  - rewrite Forall_forall in Hf. destruct (N.leb_spec a y) as [Hle|Hgt].
+    + assert (a < y) by (assert (a <> y) by (intros ->; apply Hn; left; reflexivity); lia).
+      constructor.
+      * constructor; [exact Hs | apply Forall_forall; exact Hf].
+      * apply Forall_forall. intros x [<-|Hx]; [assumption|]. specialize (Hf x Hx). lia.
+    + constructor.
+      * apply IH. intros Hin. apply Hn. right. exact Hin.
+      * apply Forall_forall. intros x Hx. apply In_insertN in Hx. destruct Hx as [->|Hx]; [lia|auto].
+Qed.
+Lemma sortN_sorted l : NoDup l -> StronglySorted N.lt (sortN l).
+Proof.
+  induction 1 as [|a l Hn Hnd IH]; [constructor|].
+  unfold sortN in *. cbn [fold_right]. apply insertN_sorted; [exact IH|].
+  intros Hin. apply In_sortN in Hin. auto.
+Qed.
+Lemma In_nodupN l x : In x (nodupN l) <-> In x l.
+Proof.
+  induction l as [|a l IH]; [reflexivity|]. cbn [nodupN].
+  destruct (memN a l) eqn:E; cbn [In]; rewrite IH; [|tauto].
+  apply memN_In in E. split; [tauto|]. intros [<-|H]; assumption.
+Qed.
+Lemma NoDup_nodupN l : NoDup (nodupN l).
+Proof.
+  induction l as [|a l IH]; [constructor|]. cbn [nodupN].
+  destruct (memN a l) eqn:E; [exact IH|]. constructor; [|exact IH].
+  rewrite In_nodupN. apply memN_false. exact E.
+Qed.
+
+(* ------------------------------------------------------------------ operating set / party ids *)
+Definition well_formed (size : nat) (g : group) : Prop :=
+  g_members g = map N.of_nat (seq 1 size).
+
+Lemma operating_sorted size g : well_formed size g -> StronglySorted N.lt (operating g).
+Proof. intros H. unfold operating. rewrite H. apply SSorted_filter, range_sorted. Qed.
+
+Lemma party_keys_spec size mb :
+  well_formed size (mb_group mb) ->
+  party_keys mb = map (party_key (mb_seed mb)) (operating (mb_group mb))
+  /\ StronglySorted Z.lt (party_keys mb).
+Proof.
+  intros H. unfold party_keys.
+  assert (S := keys_sorted (mb_seed mb) _ (operating_sorted _ _ H)).
+  rewrite sortZ_id by exact S. split; [reflexivity|exact S].
+Qed.
+
+Lemma execute_member_group size t seed self ex ops s :
+  memN self ex = false ->
+  mb_group (execute_member size t seed self ex ops s) = fold_left mark_dq ex (new_group t size).
+Proof. intros H. cbn. apply execute_marking_not_excluded. exact H. Qed.
+
+Lemma execute_member_wf size t seed self ex ops s :
+  (size <= 255)%nat -> well_formed size (mb_group (execute_member size t seed self ex ops s)).
+Proof.
+  intros H. unfold well_formed. cbn [mb_group execute_member].
+  rewrite execute_marking_fold, fold_mark_dq_members, new_group_members. apply members_small. exact H.
+Qed.
+
+Lemma is_operating_new t size m :
+  is_operating (new_group t size) m = memN m (g_members (new_group 0 size)).
+Proof. unfold is_operating. cbn [g_ia g_dq new_group memN existsb negb]. rewrite !andb_true_r. reflexivity. Qed.
+
+Lemma is_operating_execute size t self ex m :
+  (size <= 255)%nat ->
+  is_operating (execute_marking self ex (new_group t size)) m = true <->
+  (1 <= m <= N.of_nat size) /\ (m = self \/ ~ In m ex).
+Proof.
+  intros Hs. rewrite execute_marking_fold, is_operating_fold_mark_dq, is_operating_new, members_small by exact Hs.
+  rewrite andb_true_iff, memN_In, In_range, negb_true_iff, memN_false, filter_In, negb_true_iff, N.eqb_neq.
+  destruct (N.eq_dec m self); intuition.
+Qed.
+
+(* ------------------------------------------------------------------ main lemmas *)
+Lemma same_party_set size t seed i j ex ops_i ops_j s_i s_j :
+  memN i ex = false -> memN j ex = false ->
+  let mi := execute_member size t seed i ex ops_i s_i in
+  let mj := execute_member size t seed j ex ops_j s_j in
+  mb_group mi = mb_group mj /\ operating (mb_group mi) = operating (mb_group mj)
+  /\ party_keys mi = party_keys mj /\ misbehaved (mb_group mi) = misbehaved (mb_group mj).
+Proof.
+  intros Hi Hj mi mj.
+  assert (E : mb_group mi = mb_group mj).
+  { unfold mi, mj. rewrite !execute_member_group by assumption. reflexivity. }
+  unfold party_keys. rewrite E. cbn [mb_seed mi mj execute_member]. auto.
+Qed.
+
+Lemma operating_exact size t seed i ex ops s :
+  (size <= 255)%nat -> memN i ex = false ->
+  operating (mb_group (execute_member size t seed i ex ops s))
+  = filter (fun m => negb (memN m ex)) (map N.of_nat (seq 1 size)).
+Proof.
+  intros Hs Hi. rewrite execute_member_group by exact Hi. unfold operating.
+  rewrite fold_mark_dq_members, new_group_members, members_small by exact Hs.
+  apply filter_ext_in. intros m Hm.
+  rewrite is_operating_fold_mark_dq, is_operating_new, members_small by exact Hs.
+  apply memN_In in Hm. rewrite Hm. reflexivity.
+Qed.
+
+Lemma same_wallet_key {K} (keygen : list Z -> Z -> K) size t seed i j ex ops_i ops_j s_i s_j :
+  memN i ex = false -> memN j ex = false ->
+  let mi := execute_member size t seed i ex ops_i s_i in
+  let mj := execute_member size t seed j ex ops_j s_j in
+  keygen (party_keys mi) (honest_threshold (mb_group mi) - 1)%Z
+  = keygen (party_keys mj) (honest_threshold (mb_group mj) - 1)%Z.
+Proof.
+  intros Hi Hj mi mj.
+  destruct (same_party_set size t seed i j ex ops_i ops_j s_i s_j Hi Hj) as [E [_ [Ek _]]].
+  fold mi mj in E, Ek. rewrite Ek, E. reflexivity.
+Qed.
+
+Lemma excluded_listed size t seed i ex ops s :
+  (size <= 255)%nat -> memN i ex = false ->
+  let g := mb_group (execute_member size t seed i ex ops s) in
+  StronglySorted N.lt (misbehaved g)
+  /\ forall m, In m (misbehaved g) <-> (In m ex /\ 1 <= m <= N.of_nat size).
+Proof.
+  intros Hs Hi g. unfold misbehaved. split.
+  - apply sortN_sorted, NoDup_nodupN.
+  - intros m. rewrite In_sortN, In_nodupN, in_app_iff.
+    unfold g. rewrite execute_member_group by exact Hi.
+    rewrite fold_mark_dq_ia, dq_fold. cbn [g_ia g_dq new_group In].
+    rewrite is_operating_new, members_small, memN_In, In_range by exact Hs. tauto.
+Qed.
+
+(* admission *)
+Definition accepts (mb : member) (m : msg) : bool :=
+  should_accept mb (m_sender m) (m_op m) && N.eqb (mb_session mb) (m_session m).
+
+Lemma receive_all_filter mb ms : forall h, receive_all mb h ms = h ++ filter (accepts mb) ms.
+Proof.
+  unfold receive_all. induction ms as [|m ms IH]; intros h; cbn [fold_left filter].
+  - rewrite app_nil_r. reflexivity.
+  - rewrite IH. unfold receive, accepts. destruct (should_accept mb (m_sender m) (m_op m) && _).
+    + rewrite <- app_assoc. reflexivity.
+    + reflexivity.
+Qed.
+
+Lemma positions_spec ops : forall s k o,
+  In (k, o) (combine (map N.of_nat (seq s (length ops))) ops) <->
+  exists i, nth_error ops i = Some o /\ k = N.of_nat (s + i).
+Proof.
+  induction ops as [|a ops IH]; intros s k o; cbn [length seq map combine In].
+  - split; [tauto|]. intros [i [H _]]. destruct i; discriminate.
+  - rewrite IH. split.
+    + intros [H|[i [H1 H2]]].
+      * inversion H; subst. exists 0%nat. split; [reflexivity|]. f_equal. lia.
+      * exists (S i). split; [exact H1|]. rewrite H2. f_equal. lia.
+    + intros [i [H1 H2]]. destruct i as [|i]; cbn in H1.
+      * left. inversion H1; subst. f_equal. f_equal. lia.
+      * right. exists i. split; [exact H1|]. rewrite H2. f_equal. lia.
+Qed.
+
+Lemma valid_membership_spec ops sender op :
+  valid_membership ops sender op = true <->
+  nth_error ops (N.to_nat ((sender + 255) mod 256)) = Some op.
+Proof.
+  unfold valid_membership, positions. rewrite existsb_exists. split.
+  - intros [[k o] [Hin Hb]]. cbn [fst snd] in Hb. apply andb_true_iff in Hb.
+    destruct Hb as [H1 H2]. apply N.eqb_eq in H1, H2. subst.
+    apply positions_spec in Hin. destruct Hin as [i [Hn Hk]]. rewrite Hk. cbn.
+    rewrite Nat2N.id. exact Hn.
+  - intros H. exists ((sender + 255) mod 256, op). split.
+    + apply positions_spec. exists (N.to_nat ((sender + 255) mod 256)). split; [exact H|].
+      cbn. rewrite N2Nat.id. reflexivity.
+    + cbn [fst snd]. rewrite !N.eqb_refl. reflexivity.
+Qed.
+
+Lemma accepts_iff size t seed self ex ops s m :
+  (size <= 255)%nat ->
+  accepts (execute_member size t seed self ex ops s) m = true <->
+  (m_sender m <> self /\ 1 <= m_sender m <= N.of_nat size /\ ~ In (m_sender m) ex
+   /\ nth_error ops (N.to_nat (m_sender m - 1)) = Some (m_op m) /\ m_session m = s).
+Proof.
+  intros Hs. unfold accepts, should_accept. cbn [mb_id mb_ops mb_group mb_session execute_member].
+  rewrite !andb_true_iff, negb_true_iff, N.eqb_neq, N.eqb_eq, valid_membership_spec.
+  rewrite is_operating_execute by exact Hs.
+  split.
+  - intros [[[H1 H2] [H3 H4]] H5]. destruct H4 as [H4|H4]; [congruence|].
+    replace ((m_sender m + 255) mod 256) with (m_sender m - 1) in H2; [auto|].
+    assert (m_sender m + 255 = (m_sender m - 1) + 1 * 256) as -> by lia.
+    rewrite N.mod_add by lia. rewrite N.mod_small by lia. reflexivity.
+  - intros [H1 [H2 [H3 [H4 H5]]]].
+    replace ((m_sender m + 255) mod 256) with (m_sender m - 1); [auto|].
+    assert (m_sender m + 255 = (m_sender m - 1) + 1 * 256) as -> by lia.
+    rewrite N.mod_add by lia. rewrite N.mod_small by lia. reflexivity.
+Qed.
+
+(* first message per sender *)
+Lemma dedup_senders_notin seen l x : In x (senders (dedup seen l)) -> ~ In x seen.
+Proof.
+  revert seen. induction l as [|m l IH]; intros seen; cbn [dedup senders map]; [tauto|].
+  destruct (memN (m_sender m) seen) eqn:E.
+  - apply IH.
+  - cbn [senders map In]. intros [<-|H].
+    + apply memN_false. exact E.
+    + intros Hs. apply (IH _ H). right. exact Hs.
+Qed.
+Lemma dedup_nodup l : forall seen, NoDup (senders (dedup seen l)).
+Proof.
+  induction l as [|m l IH]; intros seen; cbn [dedup senders map]; [constructor|].
+  destruct (memN (m_sender m) seen); [apply IH|]. cbn [senders map]. constructor; [|apply IH].
+  intros H. apply dedup_senders_notin in H. apply H. left. reflexivity.
+Qed.
+Lemma dedup_incl l : forall seen m, In m (dedup seen l) -> In m l.
+Proof.
+  induction l as [|a l IH]; intros seen m; cbn [dedup]; [tauto|].
+  destruct (memN (m_sender a) seen); cbn [In]; [right; eauto|]. intros [->|H]; [left; reflexivity|right; eauto].
+Qed.
+Lemma dedup_covers l : forall seen m, In m l -> In (m_sender m) seen \/ In (m_sender m) (senders (dedup seen l)).
+Proof.
+  induction l as [|a l IH]; intros seen m; cbn [dedup In]; [tauto|].
+  intros [->|H].
+  - destruct (memN (m_sender m) seen) eqn:E; [left; apply memN_In; exact E|]. right. left. reflexivity.
+  - destruct (memN (m_sender a) seen) eqn:E; [apply IH; exact H|].
+    destruct (IH (m_sender a :: seen) m H) as [[<-|H1]|H1]; [right; left; reflexivity|left; exact H1|right; right; exact H1].
+Qed.
+Lemma dedup_app1 l : forall seen m,
+  dedup seen (l ++ [m]) =
+  dedup seen l ++ (if memN (m_sender m) seen || memN (m_sender m) (senders (dedup seen l)) then [] else [m]).
+Proof.
+  induction l as [|a l IH]; intros seen m; cbn [app dedup].
+  - cbn [senders map memN existsb]. rewrite orb_false_r. destruct (memN (m_sender m) seen); reflexivity.
+  - destruct (memN (m_sender a) seen) eqn:E; [apply IH|].
+    rewrite IH. cbn [app senders map]. f_equal. rewrite !memN_cons.
+    destruct (N.eqb (m_sender m) (m_sender a)), (memN (m_sender m) seen),
+      (memN (m_sender m) (map m_sender (dedup (m_sender a :: seen) l))); reflexivity.
+Qed.
+
+Lemma received_nodup h k : NoDup (senders (received h k)).
+Proof. apply dedup_nodup. Qed.
+Lemma received_incl h k m : In m (received h k) -> In m h /\ m_kind m = k.
+Proof.
+  intros H. apply dedup_incl in H. unfold all_received in H. apply filter_In in H.
+  destruct H as [H1 H2]. apply N.eqb_eq in H2. auto.
+Qed.
+Lemma received_covers h k m : In m h -> m_kind m = k -> In (m_sender m) (senders (received h k)).
+Proof.
+  intros H1 H2. destruct (dedup_covers (all_received h k) [] m) as [[]|H]; [|exact H].
+  apply filter_In. split; [exact H1|]. apply N.eqb_eq. exact H2.
+Qed.
+Lemma received_snoc h k m :
+  received (h ++ [m]) k =
+  if N.eqb (m_kind m) k && negb (memN (m_sender m) (senders (received h k)))
+  then received h k ++ [m] else received h k.
+Proof.
+  unfold received, all_received. rewrite filter_app. cbn [filter].
+  destruct (N.eqb (m_kind m) k); cbn [andb].
+  - rewrite dedup_app1. cbn [memN existsb orb].
+    destruct (memN (m_sender m) (senders (dedup [] (filter (fun m0 => N.eqb (m_kind m0) k) h))));
+      cbn [negb]; [rewrite app_nil_r|]; reflexivity.
+  - rewrite app_nil_r. reflexivity.
+Qed.
+
+(* party id round trip *)
+Lemma partyid_roundtrip seed m : m < 256 -> to_member_index seed (party_key seed m) = m.
+Proof.
+  intros H. unfold to_member_index, party_key.
+  destruct (Z.gtb_spec seed (seed + Z.of_N m)); [lia|].
+  replace (seed + Z.of_N m - seed)%Z with (Z.of_N m) by lia.
+  rewrite Z.mod_small by lia. apply N2Z.id.
+Qed.
+Lemma partyid_foreign seed key : (key < seed)%Z -> to_member_index seed key = 0.
+Proof. intros H. unfold to_member_index. destruct (Z.gtb_spec seed key); [reflexivity|lia]. Qed.
+
+(* hypotheses are satisfiable: a 3-of-5 group, member 1, member 3 excluded *)
+Example example_member :
+  let mb := execute_member 5 2 200 1 [3] [1; 2; 3; 4; 5] 7 in
+  operating (mb_group mb) = [1; 2; 4; 5] /\ party_keys mb = [201; 202; 204; 205]%Z
+  /\ misbehaved (mb_group mb) = [3]
+  /\ senders (receive_all mb []
+       [ {| m_kind := 0; m_sender := 2; m_op := 2; m_session := 7; m_body := 0 |};
+         {| m_kind := 0; m_sender := 3; m_op := 3; m_session := 7; m_body := 1 |};
+         {| m_kind := 1; m_sender := 4; m_op := 4; m_session := 8; m_body := 2 |};
+         {| m_kind := 1; m_sender := 5; m_op := 5; m_session := 7; m_body := 3 |};
+         {| m_kind := 0; m_sender := 1; m_op := 1; m_session := 7; m_body := 4 |} ]) = [2; 5].
+Proof. vm_compute. repeat split. Qed.
